@@ -56,6 +56,9 @@ func fieldWrites(fn *ssa.Function, typ string) []fieldWrite {
 			st := deref(x.X.Type())
 			if s, ok := structOf(st); ok && shortType(st) == typ {
 				_ = s
+				if _, fresh := x.X.(*ssa.Alloc); fresh {
+					return "", false // a composite literal / new object being built in this function
+				}
 				return recFieldName(st, x.Field), true
 			}
 			return rootField(x.X, depth+1)
@@ -158,6 +161,9 @@ func (w *World) stateFieldObligations(prop string) []*Obligation {
 			if sf.Globals {
 				ws = w.globalWrites(fn)
 			}
+			if !sf.Globals {
+				seen += touches(fn, sf.Type)
+			}
 			for _, fw := range ws {
 				seen++
 				if sf.Fields[fw.field] || isSetup(n) {
@@ -175,10 +181,10 @@ func (w *World) stateFieldObligations(prop string) []*Obligation {
 		// the rule itself counts as one discharged obligation when nothing offends (and it must have seen writes:
 		// a rule that scans nothing is vacuous)
 		st := "discharged"
-		why := fmt.Sprintf("%d writes through fields of %s scanned", seen, shortName(sf.Type))
+		why := fmt.Sprintf("%d field accesses / writes of %s scanned", seen, shortName(sf.Type))
 		if seen == 0 {
 			st = "failed"
-			why = "vacuous: no write through any field of " + sf.Type + " found in the repository"
+			why = "vacuous: no access to any field of " + sf.Type + " found in the repository"
 		}
 		out = append(out, &Obligation{Name: sf.Type + "/state-fields-rule", Func: sf.Type, Kind: "state-field", Tags: sf.Tags, Status: st,
 			File: sf.File, Line: sf.Line, Text: "state_fields " + shortName(sf.Type), Detail: map[string]string{"why": why}, Solver: "ssa-scan"})
@@ -673,4 +679,214 @@ func cmdSoleSites() int {
 		}
 	}
 	return 0
+}
+
+// touches: number of field accesses (reads or writes) of the struct type in fn - the rule has looked at something.
+func touches(fn *ssa.Function, typ string) int {
+	n := 0
+	for _, b := range fn.Blocks {
+		for _, ins := range b.Instrs {
+			if fa, ok := ins.(*ssa.FieldAddr); ok {
+				if st := deref(fa.X.Type()); shortType(st) == typ {
+					n++
+				}
+			}
+		}
+	}
+	return n
+}
+
+// ---- spawned_writes -------------------------------------------------------------------------------------------
+//
+//	spawned_writes : except <func> ...                 [Cnn]
+//
+// A closure that is started in another goroutine - by a go statement or by a callee declared "spawns"
+// (errgroup.Go) - writes no variable it captured from the function that made it, unless the write comes after a
+// Lock() in the closure: a captured variable written by several such goroutines (or by one while its maker reads
+// it) is a data race that no lock discipline of the declared shared tables would notice. Every function of the
+// repository is scanned; the functions named after except (watch mode) are out of the rule's scope.
+func (w *World) spawnedWriteObligations(prop string) []*Obligation {
+	var out []*Obligation
+	var names []string
+	for n := range w.P.Funcs {
+		names = append(names, n)
+	}
+	sort.Strings(names)
+	for _, sr := range w.C.SpawnedWrites {
+		if !hasTag(sr.Tags, prop) {
+			continue
+		}
+		seen := 0
+		for _, n := range names {
+			fn := w.P.Funcs[n]
+			if !w.P.InRepo(FuncPkgPath(fn)) || len(fn.Blocks) == 0 || matchesFuncGlob(n, sr.Allowed) {
+				continue
+			}
+			for _, b := range fn.Blocks {
+				for _, ins := range b.Instrs {
+					var clo *ssa.MakeClosure
+					switch x := ins.(type) {
+					case *ssa.Go:
+						clo, _ = x.Call.Value.(*ssa.MakeClosure)
+					case *ssa.Call:
+						callee := x.Call.StaticCallee()
+						if callee == nil {
+							continue
+						}
+						fc := w.C.Funcs[CanonName(callee)]
+						if fc == nil || !fc.Spawns {
+							continue
+						}
+						for _, a := range x.Call.Args {
+							if mc, ok := a.(*ssa.MakeClosure); ok {
+								clo = mc
+							}
+						}
+					}
+					if clo == nil {
+						continue
+					}
+					seen++
+					cf := clo.Fn.(*ssa.Function)
+					cnt := 0
+					for _, cb := range cf.Blocks {
+						locked := false
+						for _, ci := range cb.Instrs {
+							if c, ok := ci.(*ssa.Call); ok {
+								if f := c.Call.StaticCallee(); f != nil && (f.Name() == "Lock") {
+									locked = true
+								}
+							}
+							var target ssa.Value
+							switch s := ci.(type) {
+							case *ssa.Store:
+								target = s.Addr
+							case *ssa.MapUpdate:
+								if u, ok := s.Map.(*ssa.UnOp); ok {
+									target = u.X
+								}
+							}
+							fv, isFree := target.(*ssa.FreeVar)
+							if !isFree || locked || lockDominates(cf, cb) {
+								continue
+							}
+							if !sharedBinding(clo, fv) {
+								continue // a variable that only this one goroutine uses after it was started
+							}
+							cnt++
+							out = append(out, &Obligation{Name: fmt.Sprintf("%s/spawned-write/%s#%d", CanonName(cf), fv.Name(), cnt), Func: CanonName(cf), Kind: "spawned-write",
+								Tags: sr.Tags, Status: "failed", File: sr.File, Line: sr.Line, SrcPos: w.P.posStr(ci.Pos()),
+								Text:   "spawned_writes: a closure started in another goroutine writes no captured variable without a lock",
+								Detail: map[string]string{"why": shortName(CanonName(cf)) + " runs in its own goroutine and writes the variable " + fv.Name() + " of " + shortName(n) + " without holding a lock"}})
+						}
+					}
+				}
+			}
+		}
+		st, why := "discharged", fmt.Sprintf("%d spawned closures scanned", seen)
+		if seen == 0 {
+			st, why = "failed", "vacuous: no spawned closure found in the repository"
+		}
+		out = append(out, &Obligation{Name: "spawned_writes/rule", Func: "spawned_writes", Kind: "spawned-write", Tags: sr.Tags, Status: st,
+			File: sr.File, Line: sr.Line, Text: "spawned_writes", Detail: map[string]string{"why": why}, Solver: "ssa-scan"})
+	}
+	return out
+}
+
+// lockDominates: some block that dominates b (other than b) contains a call of a Lock method.
+func lockDominates(fn *ssa.Function, b *ssa.BasicBlock) bool {
+	for _, d := range fn.Blocks {
+		if d == b || !d.Dominates(b) {
+			continue
+		}
+		for _, ins := range d.Instrs {
+			if c, ok := ins.(*ssa.Call); ok {
+				if f := c.Call.StaticCallee(); f != nil && f.Name() == "Lock" {
+					return true
+				}
+			}
+		}
+	}
+	return false
+}
+
+// sharedBinding: the variable bound to fv when clo is made may be used by someone else than the one goroutine
+// started with clo: it is declared outside a loop that makes the closure (so several goroutines get the same
+// variable), or the maker itself uses it after making the closure, or it is not a local of the maker at all.
+func sharedBinding(clo *ssa.MakeClosure, fv *ssa.FreeVar) bool {
+	cf := clo.Fn.(*ssa.Function)
+	idx := -1
+	for i, f := range cf.FreeVars {
+		if f == fv {
+			idx = i
+		}
+	}
+	if idx < 0 || idx >= len(clo.Bindings) {
+		return true
+	}
+	al, ok := clo.Bindings[idx].(*ssa.Alloc)
+	if !ok {
+		return true
+	}
+	maker := clo.Parent()
+	mb := clo.Block()
+	// a loop of the maker that contains the closure creation but not the declaration of the variable
+	for _, b := range maker.Blocks {
+		for _, h := range b.Succs {
+			if !h.Dominates(b) {
+				continue
+			}
+			blocks := map[*ssa.BasicBlock]bool{h: true}
+			stack := []*ssa.BasicBlock{b}
+			for len(stack) > 0 {
+				x := stack[len(stack)-1]
+				stack = stack[:len(stack)-1]
+				if blocks[x] {
+					continue
+				}
+				blocks[x] = true
+				stack = append(stack, x.Preds...)
+			}
+			if blocks[mb] && !blocks[al.Block()] {
+				return true
+			}
+		}
+	}
+	// uses of the variable by the maker that may come after the closure was made
+	reach := map[*ssa.BasicBlock]bool{}
+	stack := append([]*ssa.BasicBlock{}, mb.Succs...)
+	for len(stack) > 0 {
+		x := stack[len(stack)-1]
+		stack = stack[:len(stack)-1]
+		if reach[x] {
+			continue
+		}
+		reach[x] = true
+		stack = append(stack, x.Succs...)
+	}
+	if refs := al.Referrers(); refs != nil {
+		for _, r := range *refs {
+			if _, isDbg := r.(*ssa.DebugRef); isDbg || r == ssa.Instruction(clo) {
+				continue
+			}
+			if other, isMC := r.(*ssa.MakeClosure); isMC && other != clo {
+				return true // captured by another closure as well
+			}
+			rb := r.Block()
+			if reach[rb] {
+				return true
+			}
+			if rb == mb {
+				after := false
+				for _, x := range mb.Instrs {
+					if x == ssa.Instruction(clo) {
+						after = true
+					} else if x == r && after {
+						return true
+					}
+				}
+			}
+		}
+	}
+	return false
 }
